@@ -11,6 +11,7 @@ Directive comments in it drive everything:
   // @attr file=<path in repo> anchor=<text of the fn header, e.g. "fn pc1("> [nth=1] :: <attribute text>
         insert `#[cfg_attr(kani, <attribute text>)]` on the line before the anchored item
         (pure insertion; anchor must match exactly once unless nth given)
+  // @shadow src=<repo file> dst=<new file name in the same directory> sub="from=>to" ...   (copy with logged textual substitutions)
   // @crateattr <inner attribute text, e.g. recursion_limit = "1024">   (inserted as #![cfg_attr(kani, ...)] at the top of lib.rs)
   // @config name=<cfg> [features=a,b] [rustflags="--cfg x"] [no_default_features=1]
   // @ob name=<harness fn> props=C05,C20 [tier=quick|thorough] [kind=contract|lemma|frame|bounded|exhaustive|...]
@@ -63,6 +64,7 @@ class Module:
         self.attrs = []         # dicts: file, anchor, nth, text
         self.configs = {}
         self.crateattrs = []
+        self.shadows = []
         self.modcfg = None
         self.obs = []
         self.kind = "kani"
@@ -93,6 +95,20 @@ class Module:
                 head, _, text = rest.partition("::")
                 kv = parse_kv(head)
                 self.attrs.append(dict(file=kv.get("file"), anchor=kv["anchor"], nth=int(kv.get("nth", "0")), text=text.strip()))
+            elif kind == "shadow":
+                # @shadow src=<repo file> dst=<file name next to src> sub="from=>to" [sub=...]: a copy of a real source file
+                # with LOGGED textual substitutions (used only for code the host cannot compile, e.g. aarch64 intrinsics ->
+                # software models); the copy is compiled as an extra module declared by the contract module.
+                toks = shlex.split(rest)
+                sh_ = dict(src=None, dst=None, subs=[])
+                for t in toks:
+                    k_, _, v_ = t.partition("=")
+                    if k_ == "sub":
+                        a_, _, b_ = v_.partition("=>")
+                        sh_["subs"].append((a_, b_))
+                    else:
+                        sh_[k_] = v_
+                self.shadows.append(sh_)
             elif kind == "crateattr":
                 self.crateattrs.append(rest.strip())
             elif kind == "config":
@@ -229,6 +245,23 @@ class Scratch:
                         k -= 1
                     indent = re.match(r"\s*", src_lines["lines"][hit]).group(0)
                     src_lines["ins"].append((k, f"{indent}#[cfg_attr(kani, {a['text']})]"))
+            shadow_log = []
+            for m in mods:
+                if m.crate != crate:
+                    continue
+                for sh_ in m.shadows:
+                    sp = self.src / sh_["src"]
+                    if not sp.exists():
+                        problems.append(f"lost anchor: shadow source {sh_['src']}")
+                        continue
+                    t = sp.read_text()
+                    for a_, b_ in sh_["subs"]:
+                        n_ = t.count(a_)
+                        if n_ == 0:
+                            problems.append(f"lost anchor: shadow substitution `{a_}` does not occur in {sh_['src']}")
+                        t = t.replace(a_, b_)
+                        shadow_log.append(f"{sh_['src']} -> {sh_['dst']}: `{a_}` => `{b_}` ({n_}x)")
+                    (sp.parent / sh_["dst"]).write_text(t)
             for f, e in edits.items():
                 lines = e["lines"]
                 for k, text in sorted(e["ins"], key=lambda t: -t[0]):
@@ -261,7 +294,7 @@ class Scratch:
             added = [l for l in d.stdout.split("\n") if l.startswith("> ")]
             if removed:
                 problems.append(f"injection is not insertion-only in {crate}: {removed[:3]}")
-            self.injected[crate] = dict(problems=problems, inserted_lines=len(added), removed_lines=len(removed))
+            self.injected[crate] = dict(problems=problems, inserted_lines=len(added), removed_lines=len(removed), shadow_copies=shadow_log)
             return problems
 
 
